@@ -333,6 +333,13 @@ def deflate_bomb_case(path, data, fs, w, mib):
     """a chunk whose zlib stream expands to `mib` MiB (the stored chunk is a few hundred KiB)"""
     nb = find(fs, "btree1.chunk.nbytes")
     kids = find(fs, "btree1.child")
+    kids = [k for k in kids if nb and k["off"] > nb[0]["off"]]      # the child pointer that follows the first chunk key
+    rk = find(fs, "msg.layout.rank")
+    if nb and not kids and rk and len(data) > 14:
+        # chunk B-tree located by its signature only: key = nbytes(4) mask(4) offsets(8 each, layout rank of them)
+        O = data[13] if data[8] in (0, 1) else data[9]
+        if O in (2, 4, 8):
+            kids = [dict(off=nb[0]["off"] + 8 + 8 * data[rk[-1]["off"]], w=O)]
     if not nb or not kids or not find(fs, "msg.pipeline.id"):
         return None
     comp = zlib.compress(b"\0" * (mib << 20), 9)
